@@ -6,6 +6,12 @@ LEVEL = "proof"
 REPLAY = "replay/c19.py"
 
 
+def extra_checks(tier, seed, repo_root):
+    """bounded floating-point side obligations (concrete IEEE execution of the real source)"""
+    from contracts import brents_fp
+    return brents_fp.run("C19", tier, repo_root)
+
+
 def build(reg):
     brents.register(reg, "C19")
     M = brents.MOD
@@ -16,6 +22,12 @@ def build(reg):
         not_decided=["termination of find_root_brents (no ranking function exists over the reals: an "
                      "adversarial ordinate sequence can keep |b-a| >= tolerance; see DESIGN.md C19)"],
         trusted=["the function argument f is a mathematical function F: R -> R (same value for the same point)"],
+        bounded=["find_root_brents[float]/fp/*: the proof is over the reals (A1); products of ordinates under- and "
+                 "overflow in doubles, so the module's source is also executed concretely on 10 function shapes x "
+                 "ordinate scales 1e-300 .. 1e300 x 3 tolerance/epsilon pairs x both signs (888 runs; thorough: "
+                 "2960), through find_root_brents and one ordinate at a time; clauses: no exception, terminates within "
+                 "400 evaluations, queries inside the bracket, result within the tolerance of a sign change. Bounded: "
+                 "labelled bounded-float in the evidence, never counted as proved"],
     )
 
 # negative controls (thorough tier): (name, file, old text, new text)
@@ -25,8 +37,12 @@ CONTROLS = [
     ("accept steps up to 5/4 of the bracket", "emu_base/math/brents_root_finding.py",
      "adx >= abs(3 * delta_ab / 4)", "adx >= abs(5 * delta_ab / 4)"),
     ("update a instead of b on a sign change", "emu_base/math/brents_root_finding.py",
-     "        if self.fa * ordinate < 0:\n            self.b, self.fb = abscissa, ordinate\n        else:\n            self.a, self.fa = abscissa, ordinate",
-     "        if self.fa * ordinate < 0:\n            self.a, self.fa = abscissa, ordinate\n        else:\n            self.b, self.fb = abscissa, ordinate"),
+     "            self.b, self.fb = abscissa, ordinate\n        else:\n            self.a, self.fa = abscissa, ordinate",
+     "            self.a, self.fa = abscissa, ordinate\n        else:\n            self.b, self.fb = abscissa, ordinate"),
+    ("sign test by a product that underflows (the repaired defect)", "emu_base/math/brents_root_finding.py",
+     "if (self.fa < 0 < ordinate) or (ordinate < 0 < self.fa):", "if self.fa * ordinate < 0:"),
+    ("bracket update keyed on fb (identical over the reals, underflows on a flat side)", "emu_base/math/brents_root_finding.py",
+     "if (self.fa < 0 < ordinate) or (ordinate < 0 < self.fa):", "if self.fb * ordinate > 0:"),
     ("remove the exact-root requery", "emu_base/math/brents_root_finding.py",
      "        if self.fb == 0:", "        if False:"),
 ]
